@@ -73,10 +73,14 @@ def _explore_into(summary, ex, harness, fuel, pending=None, split_at=None, dbg=N
                   ex.solver_time, time.time() - t0, summary.status), flush=True)
     try:
         ex.explore(harness, on_path=on_path, fuel=fuel, pending=pending, split_at=split_at, budget=budget)
+    except z3.Z3Exception as e:
+        summary.error = ('inconclusive', 'tool failure in the encoder: %s at %s' % (e, [l.strip() for l in traceback.format_exc().strip().split('\n') if 'File' in l][-6:]))
     except Unsupported as e:
         summary.error = ('unsupported', str(e))
     except Inconclusive as e:
         summary.error = ('inconclusive', str(e))
+    except (AttributeError, TypeError, KeyError, IndexError, ValueError, AssertionError) as e:
+        summary.error = ('inconclusive', 'tool failure in the encoder: %r at %s' % (e, [l.strip() for l in traceback.format_exc().strip().split('\n') if 'File' in l][-5:]))
     for (label, verdict, secs) in ex.queries:
         d = summary.labels.setdefault(label, {'unsat': 0, 'sat': 0, 'unknown': 0, 'seconds': 0.0})
         d[verdict] += 1
